@@ -386,10 +386,9 @@ def main():
     L.run_cases(n, L.jobs(args), work, handle)
     if args.replay:
         run.finish([])
-    run.finish([("states_prepared", 14), ("fmt_pairs_compared", 12), ("build_pairs_compared", 12),
-                ("fmt_check_passed", 3), ("fmt_check_failed", 3), ("build_check_passed", 2), ("build_check_failed", 4),
-                ("build_states", 8), ("fmt_states", 4)])
-
+    run.finish([("states_prepared", 10), ("fmt_pairs_compared", 10), ("build_pairs_compared", 10),
+                ("fmt_check_passed", 4), ("fmt_check_failed", 4), ("build_check_passed", 4), ("build_check_failed", 4),
+                ("build_states", 4), ("fmt_states", 2)])
 
 if __name__ == "__main__":
     main()
